@@ -234,13 +234,22 @@ func (c *c6) SendAndRead(ctx context.Context, dest *net.UDPAddr, req Req, m Matc
 func (c *c6) Close() error { return c.c.Close() }
 
 func (V6) IsNoResponse(err error) bool { return errors.Is(err, nclient6.ErrNoResponse) }
+// IsInUse: nclient6 refuses a pending transaction id with an untyped error; so as not to depend on its text, every
+// error that is neither the no-response error, a context error nor a closed-connection error counts as a refusal
+// (the checkers additionally require that a refused call transmitted nothing).
 func (V6) IsInUse(err error) bool {
-	return err != nil && len(err.Error()) > 0 && containsInUse(err.Error())
+	if err == nil || errors.Is(err, nclient6.ErrNoResponse) || errors.Is(err, context.Canceled) || errors.Is(err, context.DeadlineExceeded) {
+		return false
+	}
+	if errors.Is(err, net.ErrClosed) || containsStr(err.Error(), "use of closed network connection") {
+		return false
+	}
+	return true
 }
 
-func containsInUse(s string) bool {
-	for i := 0; i+14 <= len(s); i++ {
-		if s[i:i+14] == "already in use" {
+func containsStr(s, sub string) bool {
+	for i := 0; i+len(sub) <= len(s); i++ {
+		if s[i:i+len(sub)] == sub {
 			return true
 		}
 	}
